@@ -7,6 +7,7 @@ import SharkVerif.Model.Pareto
 import SharkVerif.Model.Hypervolume
 import SharkVerif.Model.HV3D
 import SharkVerif.Model.DCSort
+import SharkVerif.Model.Subset2D
 open SharkVerif.Pareto SharkVerif.HV SharkVerif.DC
 
 def showL {α} [ToString α] (l : List α) : String :=
@@ -72,7 +73,11 @@ def step (line : String) : String :=
       | "ssp", k :: n :: nums =>
         let r := nums.take 2
         let S := chunk 2 n.toNat (nums.drop 2)
-        s!"cnt={k} hv={bestSubsetHv S k.toNat r}"
+        let flags := SharkVerif.SSP.select S k.toNat r
+        let T := ((S.zip flags).filter (·.2)).map (·.1)
+        let selIdx := (List.range S.length).filter fun i => flags.getD i false
+        let best := if S.length ≤ 12 then toString (bestSubsetHv S k.toNat r) else "-"
+        s!"cnt={T.length} hv={hvSpec T r} best={best} sel={showL selIdx}"
       | _, _ => "bad-op"
 
 partial def loop (h : IO.FS.Stream) (out : IO.FS.Stream) : IO Unit := do
